@@ -48,7 +48,17 @@ try:
         os.remove(os.path.join(wt, demo_pkg, tname(t)))
     tp = " ".join(p + "/..." for p in pkgs)
     rct, ot = sh(f"go test -count=1 {tp}", cwd=wt)
-    res["existing_tests"] = {"cmd": f"go test -count=1 {tp}", "result": "pass" if rct == 0 else "FAIL: " + ot[-800:]}
+    fails = sorted(set(re.findall(r"^--- FAIL: (\S+)", ot, flags=re.M)))
+    result = "pass" if rct == 0 else "FAIL: " + ot[-800:]
+    if rct != 0:
+        # some tests fail in this sandbox without any change (no network, running as root): compare with the untouched tree
+        sh(f"git stash -q", cwd=wt)
+        rcb0, ob0 = sh(f"go test -count=1 {tp}", cwd=wt)
+        sh(f"git stash pop -q", cwd=wt)
+        base = sorted(set(re.findall(r"^--- FAIL: (\S+)", ob0, flags=re.M)))
+        if fails == base and fails:
+            result = "pass (same %d sandbox-related failures as the untouched tree: %s)" % (len(base), ",".join(base)[:200])
+    res["existing_tests"] = {"cmd": f"go test -count=1 {tp}", "result": result}
     # the property's check against the changed tree
     t0 = time.time()
     chk = subprocess.run(f"VERIF_REPO={wt} timeout 1500 ./check {prop} --tier quick", shell=True, cwd="/verif", capture_output=True, text=True)
@@ -58,9 +68,9 @@ try:
     res["detected"] = chk.returncode == 1
 finally:
     subprocess.run(f"git -C /repo worktree remove --force {wt}", shell=True, capture_output=True)
-ok = res.get("compiles") and res.get("demo_without_patch") == "pass" and res.get("demo_with_patch") == "fail" and res["existing_tests"]["result"] == "pass"
+ok = res.get("compiles") and res.get("demo_without_patch") == "pass" and res.get("demo_with_patch") == "fail" and res["existing_tests"]["result"].startswith("pass")
 res["confirmed"] = bool(ok)
-dst = f"/verif/seeded/{prop}-{name}"
+dst = f"/verif/seeded/{name}" if name.startswith(prop + "-") else f"/verif/seeded/{prop}-{name}"
 if ok:
     os.makedirs(dst, exist_ok=True)
     shutil.copy(os.path.join(src, "patch.diff"), dst)
@@ -68,5 +78,16 @@ if ok:
         b = os.path.basename(t)
         shutil.copy(t, os.path.join(dst, b if b.endswith(".txt") else b + ".txt"))  # .txt: not part of any Go package
     m2 = dict(meta); m2["verification"] = res
+    old_meta_path = os.path.join(dst, "meta.json")
+    if os.path.exists(old_meta_path):
+        try:
+            om = json.load(open(old_meta_path))
+            hist = om.get("history", [])
+            ov = om.get("verification", {})
+            hist.append({"detected": ov.get("detected"), "check_lines": ov.get("check", {}).get("lines", [])[:2],
+                         "note": "earlier run of the check against this change (before the machinery was strengthened)" if not ov.get("detected") else "earlier run"})
+            m2["history"] = hist
+        except Exception:
+            pass
     json.dump(m2, open(os.path.join(dst, "meta.json"), "w"), indent=1)
 print(json.dumps(res, indent=1))
